@@ -140,6 +140,11 @@ def flight_days(f: dict) -> list[int]:
     return out
 
 
+def _tie_offsets(ts_sorted) -> list[int]:
+    """Positions in the departure-ordered list of all instances that fall inside a group of equal departure times."""
+    return [k for k in range(1, len(ts_sorted)) if ts_sorted[k] == ts_sorted[k - 1]][:400]
+
+
 def instances_of(dbd: dict) -> list[tuple[int, int]]:
     """(departure_timestamp, flight index) for a generated database."""
     out = []
@@ -202,6 +207,9 @@ def gen_db(draw):
             'mask': 127 if long else draw(st.sampled_from([127, 127, 127, 85, 42, 31, 96, 1, 64])),
             'span': 40 if long else draw(st.sampled_from([0, 1, 2, 3, 7, 14, 21, 30, 40, 40])),
             'dur': draw(st.integers(30, 900)) * 60,
+            # the flight table records the effective period in *local* dates, the instances are stamped in UTC: near
+            # local midnight the first/last instance lies a day outside the recorded period
+            'eff_shift': draw(st.sampled_from([0, 0, -1, 1])),
         })
     return {
         'kind': 'gen', 'countries': countries, 'airports': airports, 'flights': flights,
@@ -224,6 +232,7 @@ def values_of_gen(dbd: dict) -> dict:
         'seats': sorted({f['seats'] for f in dbd['flights']}),
         'days': days,
         'n': len(inst),
+        'tie_offsets': _tie_offsets(sorted(ts for ts, _ in inst)),
         # edges just below the smallest, between all and just above the largest coordinate
         'lat_edges': [_edge(lat_edges[0] - 1)] + [_edge(k) for k in lat_edges],
         'lon_edges': [_edge(lon_edges[0] - 1)] + [_edge(k) for k in lon_edges],
@@ -333,7 +342,9 @@ def _num(draw, known, integer=False):
     """A threshold: a value present in the database (boundary inclusivity),
     just beside one, or anywhere."""
     v = draw(st.sampled_from(known)) if known else 100
-    m = draw(st.integers(0, 5))
+    m = draw(st.integers(0, 6))
+    if m == 6:
+        return 0  # a bound of zero is a bound (an upper bound of 0 selects nothing, or only the zero entries)
     if m <= 2:
         return v
     if m == 3:
@@ -358,6 +369,15 @@ def gen_query(draw, vals):
     n = vals['n']
     t = draw(st.integers(0, 9))
     q = {'type': 'query' if t < 6 else ('count' if t < 8 else 'freq')}
+    if t < 6 and _p(draw, 8):
+        # plain paging through the whole schedule (no condition at all), preferably starting inside a group of
+        # instances that share one departure time
+        ties = vals.get('tie_offsets') or []
+        off = draw(st.sampled_from(ties)) if ties and _p(draw, 70) else draw(st.integers(0, n + 2))
+        q.update(filter=None, start=None, end=None, every_nth=None, sample=None,
+                 limit=draw(st.integers(1, 12)), offset=off, mode=draw(st.sampled_from(['once', 'rerun'])))
+        q['k'] = 1 if q['mode'] == 'once' else 2
+        return q
     # a sampled query is only informative when many instances match: most of
     # them get a light filter and no date window
     sampled = q['type'] == 'query' and _p(draw, 24)
@@ -452,8 +472,8 @@ def build_generated(dbd: dict, path: str):
                     fid, f['carrier'], f['num'], ids[f['o']], ids[f['d']], f['mask'], tod // 60,
                     ((tod + f['dur']) % 86400) // 60, (tod + f['dur']) // 86400, f['svc'], f['ac'], f['engine'],
                     f['dist'], f['seats'],
-                    date.fromordinal(EPOCH_ORD + f['day']).isoformat(),
-                    date.fromordinal(EPOCH_ORD + f['day'] + max(f['span'] - 1, 0)).isoformat(),
+                    date.fromordinal(EPOCH_ORD + f['day'] + f.get('eff_shift', 0)).isoformat(),
+                    date.fromordinal(EPOCH_ORD + f['day'] + max(f['span'] - 1, 0) + f.get('eff_shift', 0)).isoformat(),
                     len(days), min(o, d) + max(o, d),
                 ))
                 for dd in days:
@@ -635,6 +655,7 @@ class RefDB:
             'seats': sorted({f['seat_capacity'] for f in fl}),
             'days': sorted({i[0] // 86400 for i in self.inst}),
             'n': len(self.inst),
+            'tie_offsets': _tie_offsets(sorted(i[0] for i in self.inst)),
             'lat_edges': edges(self.lat),
             'lon_edges': edges(self.lon),
         }
